@@ -173,9 +173,38 @@ class Interp(ExprMixin, BuiltinMixin, MethodMixin):
         if isinstance(s.test, ast.Name) and s.test.id == "TYPE_CHECKING":
             return self.exec_block(s.orelse, env)
         c = self.eval(s.test, env)
+        if self._if_conversion(s, c, env):
+            return None
         if ops.truth(self, c, "if@%d" % s.lineno):
             return self.exec_block(s.body, env)
         return self.exec_block(s.orelse, env)
+
+    def _if_conversion(self, s, c, env):
+        """`if c: x = e1 [else: x = e2]` with side-effect free e1, e2 and a symbolic c is executed as
+        x = ite(c, e1, e2) instead of forking the path (the statement form of what ex_IfExp does for the conditional
+        expression; without it 32 such statements in a loop are 2**32 paths).  Anything else: fork as usual."""
+        t = ops.truth_val(self, c)
+        if isinstance(t, bool) or len(s.body) != 1 or len(s.orelse) > 1:
+            return False
+        b = s.body[0]
+        o = s.orelse[0] if s.orelse else None
+        if not (isinstance(b, ast.Assign) and len(b.targets) == 1 and isinstance(b.targets[0], ast.Name)):
+            return False
+        name = b.targets[0].id
+        if o is not None and not (isinstance(o, ast.Assign) and len(o.targets) == 1 and isinstance(o.targets[0], ast.Name) and o.targets[0].id == name):
+            return False
+        if not self.is_pure(b.value, env) or (o is not None and not self.is_pure(o.value, env)):
+            return False
+        try:
+            va = self.eval(b.value, env)
+            vb = self.eval(o.value, env) if o is not None else self.load_name(name, env)
+            m = ops.merge(t.t, va, vb)
+        except (PyRaise, Unsupported):
+            return False
+        if m is NotImplemented:
+            return False
+        self.assign(b.targets[0], m, env)
+        return True
 
     def st_Assert(self, s, env):
         c = self.eval(s.test, env)
